@@ -535,6 +535,11 @@ PrioSort(s, S, desc) ==
 \* The arbiter keeps TWO structures (arbiter.py): the list `watchers` (s.wl: indices, in list order) and the
 \* dict `_watchers_names` keyed by lower-cased name (s.wn: sequence of [k, i]); each is updated separately.
 WatcherIdx(s) == SeqSet(s.wl)
+\* a subset of the watchers handed to the arbiter-level operations (watcher_iter_func of a name pattern that matches
+\* several): a bit mask over watcher indices, 0 = all of them
+RECURSIVE MaskOf(_)
+MaskOf(S) == IF S = {} THEN 0 ELSE LET i == CHOOSE x \in S : TRUE IN 2 ^ (i - 1) + MaskOf(S \ {i})
+Sel(s, mask) == IF mask = 0 THEN WatcherIdx(s) ELSE { i \in WatcherIdx(s) : (mask \div 2 ^ (i - 1)) % 2 = 1 }
 ByName(s, lname) == { e.i : e \in { x \in SeqSet(s.wn) : x.k = lname } }
 \* observable watchers: the list, then dict-only entries, then watchers that were removed from the directory
 \* but still have workers or an unfinished stop
@@ -545,7 +550,7 @@ DirSeq(s) == LET d == s.wl \o SelectSeq([j \in 1..Len(s.wn) |-> s.wn[j].i], LAMB
 \* ---- Arbiter._start_watchers()
 P_a_start(s, f) ==
   LET fr == s.fr[f] IN
-  CASE fr.pc = "0" -> Goto(SetL(s, f, PrioSort(s, WatcherIdx(s), TRUE)), f, "1")
+  CASE fr.pc = "0" -> Goto(SetL(s, f, PrioSort(s, Sel(s, fr.p), TRUE)), f, "1")
     [] fr.pc = "1" -> IF fr.l = <<>> THEN Ret(s, f, 1)
                       ELSE IF s.cfg.ws[Head(fr.l)].auto THEN Call(s, f, "2", "_start", Head(fr.l), 0, 0, 0)
                       ELSE Goto(SetL(s, f, Tail(fr.l)), f, "1")
@@ -555,7 +560,7 @@ P_a_start(s, f) ==
 \* ---- Arbiter._stop_watchers(): every watcher's _stop is started (ascending priority), then all awaited
 P_a_stop(s, f) ==
   LET fr == s.fr[f] IN
-  CASE fr.pc = "0" -> Goto(SetL(s, f, PrioSort(s, WatcherIdx(s), FALSE)), f, "1")
+  CASE fr.pc = "0" -> Goto(SetL(s, f, PrioSort(s, Sel(s, fr.p), FALSE)), f, "1")
     [] fr.pc = "1" -> IF fr.l = <<>> THEN Await(s, f, "2")
                       ELSE Call(SetL(s, f, Tail(fr.l)), f, "1", "_stop", Head(fr.l), 0, fr.a, 0)
     [] fr.pc = "2" -> Ret(DropKids(s, f), f, 1)
@@ -563,9 +568,9 @@ P_a_stop(s, f) ==
 \* ---- Arbiter.restart(inside_circusd=False) / _restart
 P_a_restart(s, f) ==
   LET fr == s.fr[f] IN
-  CASE fr.pc = "0" -> Call(s, f, "1", "a_stop", 0, 0, 0, 0)
+  CASE fr.pc = "0" -> Call(s, f, "1", "a_stop", 0, fr.p, 0, 0)
     [] fr.pc = "1" -> Await(s, f, "2")
-    [] fr.pc = "2" -> Call(DropKids(s, f), f, "3", "a_start", 0, 0, 0, 0)
+    [] fr.pc = "2" -> Call(DropKids(s, f), f, "3", "a_start", 0, fr.p, 0, 0)
     [] fr.pc = "3" -> Await(s, f, "4")
     [] fr.pc = "4" -> Ret(DropKids(s, f), f, 1)
 
@@ -633,23 +638,24 @@ P_periodic(s, f) ==
 
 \* ---- the generic exclusive operation frame: fr.nm = which, runs the underlying coroutine and relays its result
 OpTarget(s, fr) ==
-  CASE fr.nm = "start" -> <<"_start", fr.w, 0, 0>>
-    [] fr.nm = "stop" -> <<"_stop", fr.w, 1, 0>>
-    [] fr.nm = "restart" -> <<"_restart", fr.w, 0, 0>>
-    [] fr.nm = "reload" -> <<"_reload", fr.w, fr.a, fr.b>>
-    [] fr.nm = "incr" -> <<"set_numprocesses", fr.w, s.ws[fr.w].np + fr.a, 0>>
-    [] fr.nm = "decr" -> <<"set_numprocesses", fr.w, s.ws[fr.w].np - fr.a, 0>>
-    [] fr.nm = "do_action" -> IF fr.a = 0 THEN <<"manage_processes", fr.w, 0, 0>>
-                              ELSE <<"_reload", fr.w, 1, 0>>        \* graceful, not sequential
-    [] fr.nm = "a_start" -> <<"a_start", 0, 0, 0>>
-    [] fr.nm = "a_stop" -> <<"a_stop", 0, 0, 0>>
-    [] fr.nm = "a_restart" -> <<"a_quit", 0, 1, 0>>
-    [] fr.nm = "a_reload" -> <<"a_reload", 0, fr.a, fr.b>>
-    [] fr.nm = "quit" -> <<"a_quit", 0, 0, 0>>
+  CASE fr.nm = "start" -> <<"_start", fr.w, 0, 0, 0>>
+    [] fr.nm = "stop" -> <<"_stop", fr.w, 1, 0, 0>>
+    [] fr.nm = "restart" -> <<"_restart", fr.w, 0, 0, 0>>
+    [] fr.nm = "reload" -> <<"_reload", fr.w, fr.a, fr.b, 0>>
+    [] fr.nm = "incr" -> <<"set_numprocesses", fr.w, s.ws[fr.w].np + fr.a, 0, 0>>
+    [] fr.nm = "decr" -> <<"set_numprocesses", fr.w, s.ws[fr.w].np - fr.a, 0, 0>>
+    [] fr.nm = "do_action" -> IF fr.a = 0 THEN <<"manage_processes", fr.w, 0, 0, 0>>
+                              ELSE <<"_reload", fr.w, 1, 0, 0>>        \* graceful, not sequential
+    [] fr.nm = "a_start" -> <<"a_start", 0, 0, 0, fr.p>>
+    [] fr.nm = "a_stop" -> <<"a_stop", 0, 0, 0, fr.p>>
+    [] fr.nm = "a_restartw" -> <<"a_restart", 0, 0, 0, fr.p>>      \* Arbiter.restart(watcher_iter_func): stop them, start them
+    [] fr.nm = "a_restart" -> <<"a_quit", 0, 1, 0, 0>>
+    [] fr.nm = "a_reload" -> <<"a_reload", 0, fr.a, fr.b, 0>>
+    [] fr.nm = "quit" -> <<"a_quit", 0, 0, 0, 0>>
 P_op(s, f) ==
   LET fr == s.fr[f] IN
   CASE fr.pc = "0" -> IF fr.nm = "do_action" /\ fr.a # 0 /\ s.ws[fr.w].st = "stopped" THEN Ret(s, f, 1)
-                      ELSE LET t == OpTarget(s, fr) IN Call(s, f, "1", t[1], t[2], 0, t[3], t[4])
+                      ELSE LET t == OpTarget(s, fr) IN Call(s, f, "1", t[1], t[2], t[5], t[3], t[4])
     [] fr.pc = "1" -> Await(s, f, "2")
     [] fr.pc = "2" -> LET r == KidR(s, f) IN Ret(DropKids(s, f), f, r)
 
@@ -715,19 +721,22 @@ P_send_signal_children(s, f) ==
 Reply(s, cid, mid, status, errno) == IF cid = "" THEN s ELSE Emit(s, Line("reply", mid, 0, errno, status, cid))
 
 \* ---- Controller.dispatch for the request s.creq      (errno: 3 MESSAGE_ERROR, 5 COMMAND_ERROR)
-ExclSlot(q) ==
-  CASE q.cmd = "start" -> IF q.hasname THEN "watcher_start" ELSE "arbiter_start_watchers"
-    [] q.cmd = "stop" -> IF q.hasname THEN "watcher_stop" ELSE "arbiter_stop_watchers"
-    [] q.cmd = "restart" -> IF q.hasname THEN "watcher_restart" ELSE "arbiter_restart"
+\* (one: the request names exactly one watcher, possibly through a pattern; a pattern that matches several watchers
+\*  goes to the arbiter-level function with a watcher_iter_func over the matches)
+ExclSlot(q, one) ==
+  CASE q.cmd = "start" -> IF one THEN "watcher_start" ELSE "arbiter_start_watchers"
+    [] q.cmd = "stop" -> IF one THEN "watcher_stop" ELSE "arbiter_stop_watchers"
+    [] q.cmd = "restart" -> IF one THEN "watcher_restart" ELSE "arbiter_restart"
     [] q.cmd = "reload" -> IF q.hasname THEN "watcher_reload" ELSE "arbiter_reload"
     [] q.cmd = "incr" -> "watcher_incr"
     [] q.cmd = "decr" -> "watcher_decr"
     [] q.cmd = "set" -> "watcher_set_opt"
     [] q.cmd = "quit" -> "arbiter_stop"
     [] OTHER -> ""
-OpName(q) ==
-  CASE q.cmd \in {"start", "stop", "reload"} -> IF q.hasname THEN q.cmd ELSE "a_" \o q.cmd
-    [] q.cmd = "restart" -> IF q.hasname THEN "restart" ELSE "a_restart"
+OpName(q, one) ==
+  CASE q.cmd \in {"start", "stop"} -> IF one THEN q.cmd ELSE "a_" \o q.cmd
+    [] q.cmd = "reload" -> IF q.hasname THEN q.cmd ELSE "a_" \o q.cmd
+    [] q.cmd = "restart" -> IF one THEN "restart" ELSE IF q.hasname THEN "a_restartw" ELSE "a_restart"
     [] OTHER -> q.cmd
 GotoZ(s, f, v) == Goto(s, f, "z")
 \* the options of a `set` request as the model sees them: k \in {"np", "G" (polls), "W" (ticks), "ssig", "sch", "hup",
@@ -744,8 +753,12 @@ ApplyOpt(wr, o) ==
     [] OTHER -> wr
 P_req(s, f) ==
   LET fr == s.fr[f] q == s.creq cid == fr.nm
-      ws == ByName(s, q.lname)
-      i == IF ws = {} THEN 0 ELSE Min(ws) IN
+      \* start / stop / restart match the name as a glob against the LIST of watchers (q.matches: the lower-cased
+      \* names the pattern matches, worked out by the recorder with fnmatch); everything else looks the name up
+      pat == q.pattern /\ q.cmd \in {"start", "stop", "restart"}
+      ws == IF pat THEN { j \in WatcherIdx(s) : WL(s, j) \in SeqSet(q.matches) } ELSE ByName(s, q.lname)
+      i == IF ws = {} THEN 0 ELSE Min(ws)
+      one == q.hasname /\ ~(pat /\ Cardinality(ws) > 1) IN
   CASE fr.pc = "0" ->
          IF q.cmd = "add" THEN Goto(s, f, "d")
          ELSE IF q.cmd = "signal" /\ q.childpid # -1 /\ q.pid = -1           \* Signal.validate: ArgumentError
@@ -820,9 +833,9 @@ P_req(s, f) ==
          IF s.restarting \/ s.slot # "" THEN Reply(Goto(s, f, "z"), cid, q.mid, "error", 5)
          ELSE IF q.cmd = "set"
          THEN Goto([SetL(s, f, SetOpts(q)) EXCEPT !.fr[f].b = 0], f, "xs")
-         ELSE CallN([s EXCEPT !.slot = ExclSlot(q)], f, "x3", "op", i, 0,
+         ELSE CallN([s EXCEPT !.slot = ExclSlot(q, one)], f, "x3", "op", i, IF q.hasname /\ ~one THEN MaskOf(ws) ELSE 0,
                     IF q.cmd \in {"incr", "decr"} THEN q.nb ELSE IF q.graceful THEN 1 ELSE 0,
-                    IF q.sequential THEN 1 ELSE 0, OpName(q))
+                    IF q.sequential THEN 1 ELSE 0, OpName(q, one))
     [] fr.pc = "xs" ->     \* Set.execute: Watcher.set_opt(key, val) per option, in the order of the options object; each call
                            \* is synchronized("watcher_set_opt") by itself and announces `updated`; fr.b = action so far
          IF fr.l = <<>> THEN Goto(s, f, "x2")
@@ -882,7 +895,7 @@ QuitReq == [cmd |-> "quit", name |-> "", lname |-> "", hasname |-> FALSE, mid |-
             cast |-> FALSE, pid |-> -1, signum |-> -1, children |-> FALSE, recursive |-> FALSE, childpid |-> -1,
             nb |-> 1, G |-> -1, nostop |-> FALSE, graceful |-> TRUE, sequential |-> FALSE, raw |-> FALSE,
             start |-> FALSE, addnp |-> 1, addG |-> 1, addW |-> 0, addsing |-> FALSE, nopts |-> 1, pattern |-> FALSE,
-            opts |-> <<>>]
+            opts |-> <<>>, matches |-> <<>>]
 
 Dispatch(s, f, ob) ==
   LET fn == s.fr[f].fn IN
@@ -954,7 +967,12 @@ RunCb(s) ==
              s1 == Free(s0, {cb.f}) IN
          IF failed THEN [Reply(s1, cb.cid, cb.mid, "error", 6) EXCEPT !.lastobs = ObsCore(s1)]
          ELSE [Reply(s1, cb.cid, cb.mid, "ok", 0) EXCEPT !.lastobs = ObsCore(s1)]
-    [] cb.kind = "dsig" ->    \* SysHandler: controller.dispatch((None, make_json("quit")))
+    [] cb.kind = "dsig" ->    \* SysHandler: controller.dispatch((None, make_json("quit")))   (or "reload" for SIGHUP)
+         IF cb.mid = "hup"
+         THEN [s0 EXCEPT !.creq = [QuitReq EXCEPT !.cmd = "reload"],
+                         !.fr[Min(FreeIds(s0))] = [NoFrame EXCEPT !.fn = "req", !.pc = "0", !.nm = ""],
+                         !.cur = <<Min(FreeIds(s0))>>]
+         ELSE
          IF ~Dev_QuitRefusedWhenBusy /\ s0.restarting
          THEN \* repaired: the arbiter is going down to be started again; it now stays down (circusd reads the flag)
               [s0 EXCEPT !.restarting = FALSE, !.cbpend = TRUE]
@@ -1011,8 +1029,12 @@ Request(s, q, cid) ==
   IN [s1 EXCEPT !.out = [Line("req", q.name, 0, IF q.waiting THEN 1 ELSE 0, q.cmd, cid) EXCEPT !.k = "req"],
                 !.lastobs = ObsCore(s1)]
 \* SIGTERM / SIGINT / SIGQUIT to the daemon: SysHandler queues dispatch((None, quit)) on the loop
+\* SIGHUP: dispatch((None, reload)), dropped when refused;  SIGWINCH: handled, nothing happens
+SIGWINCH == 28
 DaemonSignal(s, sig) ==
-  EnvLine(Enq(s, [kind |-> "dsig", f |-> 0, cid |-> "", mid |-> ""]), Line("dsig", "", 0, sig, "", ""))
+  IF sig = SIGWINCH THEN EnvLine(s, Line("dsig", "", 0, sig, "", ""))
+  ELSE EnvLine(Enq(s, [kind |-> "dsig", f |-> 0, cid |-> "", mid |-> IF sig = SIGHUP THEN "hup" ELSE ""]),
+               Line("dsig", "", 0, sig, "", ""))
 \* the next process creations fail (exec error) / succeed as the environment decides
 AddFault(s, kind) == EnvLine([s EXCEPT !.faults = Append(@, kind)], Line("spawnfault", "", 0, 0, kind, ""))
 Boot(s) ==
